@@ -65,7 +65,7 @@ struct RpdoRun : NodeEnv {
         else if (k == "sync") {
             Fx fx = deliver(Frame(0x80, 0, {}));
             if (m == M_OP) { for (auto &r : R) if (r.exists && r.valid && r.sync()) { if (r.hasNew == 1) { apply(r, r.buf); r.hasNew = 0; expSyncUpd++; cov.hit("sync-applied"); nontrivial = true; } else if (r.hasNew == 2) { std::map<uint8_t, uint32_t> keep = val; apply(r, r.buf); alts.push_back(val); val = keep; r.hasNew = 0; maybeSyncUpd++; } else cov.hit("sync-without-reception"); } }
-            else { cov.hit("sync-outside-op"); }
+            else { cov.hit("sync-outside-op"); if (m == M_PREOP) for (auto &r : R) if (r.hasNew) { r.hasNew = 0; cov.hit("buffered-frame-missed-its-sync"); } }   // the SYNC that follows the reception is recognised but may change nothing: the frame's chance has passed
             if (!fx.tx.empty()) fail("rpdo/tx", "transmission on SYNC: " + fx.tx[0].str());
         }
         safety(); if (!v.ok) return;
